@@ -32,6 +32,9 @@ def _model_to_dict(m):
 def _cvc5_check(smt2_text, timeout_ms):
     import cvc5
 
+    for nm in ("bvsdiv", "bvudiv", "bvsrem", "bvurem", "bvsmod"):
+        # z3 prints its internal "divisor known non-zero" variants; on a non-zero divisor they are the SMT-LIB operators
+        smt2_text = smt2_text.replace(nm + "_i ", nm + " ")
     slv = cvc5.Solver()
     slv.setOption("tlimit-per", str(int(timeout_ms)))
     slv.setLogic("ALL")
@@ -59,13 +62,44 @@ def abstract_nonlinear(fs):
     """Replace non-linear integer subterms (x*y, x div y, x mod y with two non-numeral arguments) by applications of
     uninterpreted functions.  Validity of the abstracted formula implies validity of the original one (the real
     operations are one interpretation of the symbols), so an `unsat` on the abstraction is a proof; a `sat` is not a
-    counterexample.  Returns (abstracted formulas, instance axioms, number of abstracted subterms)."""
+    counterexample.  Instance axioms added for the abstracted subterms are true facts of integer arithmetic
+    (SMT-LIB definition of div/mod; commutativity, unit, zero, sign and monotonicity of multiplication).
+    Returns (abstracted formulas, instance axioms, number of abstracted subterms)."""
     cache = {}
     axioms = []
     count = [0]
+    muls = {}
 
     def numeral(e):
         return z3.is_int_value(e)
+
+    def mk_mul(a, b, companion=True):
+        key = (a.get_id(), b.get_id())
+        if key in muls:
+            return muls[key]
+        r = UMUL(a, b)
+        if companion:
+            # |a*b| = |a|*|b|
+            aa, bb = z3.If(a >= 0, a, -a), z3.If(b >= 0, b, -b)
+            muls[key] = r
+            ra = mk_mul(aa, bb, companion=False)
+            axioms.append(ra == z3.If(r >= 0, r, -r))
+        muls[key] = r
+        count[0] += 1
+        r2 = UMUL(b, a)
+        muls[(b.get_id(), a.get_id())] = r2
+        axioms.append(r == r2)
+        axioms.append(z3.Implies(a == 0, r == 0))
+        axioms.append(z3.Implies(b == 0, r == 0))
+        axioms.append(z3.Implies(a == 1, r == b))
+        axioms.append(z3.Implies(b == 1, r == a))
+        axioms.append(z3.Implies(a == -1, r == -b))
+        axioms.append(z3.Implies(b == -1, r == -a))
+        axioms.append(z3.Implies(z3.And(a > 0, b > 0), z3.And(r >= a, r >= b)))
+        axioms.append(z3.Implies(z3.And(a < 0, b < 0), z3.And(r >= -a, r >= -b)))
+        axioms.append(z3.Implies(z3.And(a > 0, b < 0), z3.And(r <= -a, r <= b)))
+        axioms.append(z3.Implies(z3.And(a < 0, b > 0), z3.And(r <= a, r <= -b)))
+        return r
 
     def walk(e):
         k = e.get_id()
@@ -81,23 +115,22 @@ def abstract_nonlinear(fs):
             if kind == z3.Z3_OP_MUL:
                 non = [a for a in args if not numeral(a)]
                 if len(non) >= 2:
-                    non.sort(key=lambda a: a.get_id())
                     acc = non[0]
                     for a in non[1:]:
-                        acc = UMUL(acc, a)
-                        count[0] += 1
+                        acc = mk_mul(acc, a)
                     coef = [a for a in args if numeral(a)]
                     r = acc
                     for c in coef:
                         r = c * r
             elif kind in (z3.Z3_OP_IDIV, z3.Z3_OP_MOD) and not numeral(args[1]):
-                f = UDIV if kind == z3.Z3_OP_IDIV else UMOD
-                r = f(args[0], args[1])
+                a, b = args
+                q, m = UDIV(a, b), UMOD(a, b)
                 count[0] += 1
-                if kind == z3.Z3_OP_MOD:
-                    b = args[1]
-                    axioms.append(z3.Implies(b > 0, z3.And(r >= 0, r < b)))
-                    axioms.append(z3.Implies(b < 0, z3.And(r >= 0, r < -b)))
+                r = q if kind == z3.Z3_OP_IDIV else m
+                # SMT-LIB: b != 0  ==>  a = b * (a div b) + (a mod b)  and  0 <= a mod b < |b|
+                axioms.append(z3.Implies(b != 0, a == mk_mul(b, q) + m))
+                axioms.append(z3.Implies(b > 0, z3.And(m >= 0, m < b)))
+                axioms.append(z3.Implies(b < 0, z3.And(m >= 0, m < -b)))
         if r is None:
             try:
                 r = e.decl()(*args) if args else e
@@ -107,6 +140,33 @@ def abstract_nonlinear(fs):
         return r
 
     out = [walk(f) for f in fs]
+    # monotonicity between pairs of products sharing a factor (bounded number of instances)
+    items = list(muls.items())
+    seen = set()
+    pairs = 0
+    for i, ((ia, ib), r1) in enumerate(items):
+        a1, b1 = r1.arg(0), r1.arg(1)
+        for ((ja, jb), r2) in items[i + 1:]:
+            if pairs > 1500:
+                break
+            a2, b2 = r2.arg(0), r2.arg(1)
+            key = tuple(sorted((r1.get_id(), r2.get_id())))
+            if key in seen:
+                continue
+            seen.add(key)
+            pairs += 1
+            # 0 <= a1 <= a2 and 0 <= b1 <= b2  ==>  a1*b1 <= a2*b2   (both orientations)
+            axioms.append(z3.Implies(z3.And(a1 >= 0, a1 <= a2, b1 >= 0, b1 <= b2), r1 <= r2))
+            axioms.append(z3.Implies(z3.And(a2 >= 0, a2 <= a1, b2 >= 0, b2 <= b1), r2 <= r1))
+            axioms.append(z3.Implies(z3.And(a1 == a2, b1 == b2), r1 == r2))
+            axioms.append(z3.Implies(z3.And(a1 == -a2, b1 == -b2), r1 == r2))
+            # strict monotonicity with a common positive factor: b > 0 and a1 < a2  ==>  a1*b + b <= a2*b
+            axioms.append(z3.Implies(z3.And(b1 == b2, b1 > 0, a1 < a2), r1 + b1 <= r2))
+            axioms.append(z3.Implies(z3.And(b1 == b2, b1 > 0, a2 < a1), r2 + b1 <= r1))
+            axioms.append(z3.Implies(z3.And(a1 == a2, a1 > 0, b1 < b2), r1 + a1 <= r2))
+            axioms.append(z3.Implies(z3.And(a1 == a2, a1 > 0, b2 < b1), r2 + a1 <= r1))
+            axioms.append(z3.Implies(z3.And(a1 == -a2, b1 == b2), r1 == -r2))
+            axioms.append(z3.Implies(z3.And(a1 == a2, b1 == -b2), r1 == -r2))
     return out, axioms, count[0]
 
 
